@@ -61,7 +61,8 @@ def oracle(method, a, factors, outside):
                                 lo = v if lo is None else min(lo, v)
                                 hi = v if hi is None else max(hi, v)
                     # float64 sums of these float32 values are exact when their exponents span few bits
-                    narrow = (not exps) or (max(exps) - min(exps) + 24 + 4 <= 53)
+                    narrow = ((not exps) or (max(exps) - min(exps) + 24 + 4 <= 53)) and (
+                        outside is None or float(np.float32(outside)) == float(outside))
                     out[z, y, x] = (tot / (fz * fy * fx), lo, hi, narrow)
     return out
 
